@@ -666,6 +666,8 @@ HELPER_MAX_NODES = 2500
 
 
 def is_anchor(name):
+    if "<impl std::convert::From<" in name and "::{closure#" not in name:
+        return False  # a conversion written in this crate is a helper like any other (`x.into()`)
     if name.startswith("<") or "::{closure#" in name or "<impl " in name:
         return True
     if name in ANCHOR_EXACT:
@@ -884,6 +886,85 @@ def _closure_env(body):
     return env
 
 
+def _inline_closure_call(out, cdef, F, depth):
+    """`f(args)` where f is the local closure `cdef`: the closure body with its parameters bound (None if not expressible)."""
+    tup = peel(out["args"][1])
+    clo = F.fns.get(cdef) if cdef else None
+    if clo is not None and clo.thir is not None and tup.get("k") == "Tuple":
+        ps = [p for p in clo.thir["params"] if p.get("pat") is not None]
+        cbody = _unreturn(clo.raw_body)
+        if len(ps) == len(tup["fields"]) and not any(x.get("k") in ("Return", "Try") for x in walk(cbody)):
+            # every inlined copy gets fresh identities for the closure's own bindings (captured variables keep theirs)
+            _inline_counter[0] += 1
+            coff = 1000000 * _inline_counter[0]
+            own = set()
+            for p_ in ps:
+                own |= {b[1] for b in pat_binds(p_["pat"])}
+            for x in walk(cbody):
+                if x.get("k") == "Block":
+                    for st in x["stmts"]:
+                        if st["k"] == "Let":
+                            own |= {b[1] for b in pat_binds(st["pat"])}
+                for key in ("arms",):
+                    for a_ in x.get(key) or []:
+                        own |= {b[1] for b in pat_binds(a_["pat"])}
+                if x.get("k") in ("For", "LetCond") and x.get("pat") is not None:
+                    own |= {b[1] for b in pat_binds(x["pat"])}
+            cbody = _reid_only(cbody, coff, own)
+            ps = [dict(p_, pat=_reid_only(p_["pat"], coff, own)) for p_ in ps]
+            stmts = []
+            subst = {}
+            for p_, a in zip(ps, tup["fields"]):
+                pb = strip_ref(p_["pat"])
+                if pb.get("k") == "Bind" and not pb.get("sub") and peel(a).get("k") in ("Var", "Upvar", "Lit", "Const") and p_["pat"].get("k") == "Bind":
+                    subst[pb["id"]] = a
+                else:
+                    stmts.append({"k": "Let", "sp": out["sp"], "pat": p_["pat"], "init": a, "else": None})
+            inner = _subst(_normalise(cbody, F, depth + 1), subst)
+            if not stmts:
+                inner = dict(inner)
+                inner["inlined"] = cdef
+                return inner
+            return {"k": "Block", "ty": out.get("ty"), "sp": out["sp"], "unsafe": False, "stmts": stmts, "expr": inner, "inlined": cdef}
+    return None
+
+
+def _apply_fn_params(n, fparams, F):
+    """`f(x)` where f is a helper parameter that received the function item `path`: the direct call `path(x)`"""
+    if isinstance(n, list):
+        return [_apply_fn_params(x, fparams, F) for x in n]
+    if not isinstance(n, dict):
+        return n
+    out = {k_: (v_ if k_ == "pat" else _apply_fn_params(v_, fparams, F)) for k_, v_ in n.items()}
+    if out.get("k") == "Call" and not out.get("fn") and isinstance(out.get("fun"), dict):
+        fv = peel(out["fun"])
+        if fv.get("k") in ("Var", "Upvar") and fv.get("id") in fparams:
+            out = dict(out)
+            out["fn"] = fparams[fv["id"]]
+            out["local"] = out["fn"] in F.fns
+            out["gen"] = []
+            out.pop("fun", None)
+    return out
+
+
+def _apply_closure_params(n, cparams, F, depth):
+    """calls of a helper's closure parameter, after the helper body has been inlined: the argument closure's body"""
+    if isinstance(n, list):
+        return [_apply_closure_params(x, cparams, F, depth) for x in n]
+    if not isinstance(n, dict):
+        return n
+    out = {k_: (v_ if k_ == "pat" else _apply_closure_params(v_, cparams, F, depth)) for k_, v_ in n.items()}
+    if out.get("k") == "Call" and (out.get("fn") or "").endswith(("Fn::call", "FnMut::call_mut", "FnOnce::call_once")) and len(out["args"]) == 2:
+        fv = peel(out["args"][0])
+        while fv.get("k") in ("Borrow", "Deref") and isinstance(fv.get("arg"), dict):
+            fv = peel(fv["arg"])
+        if fv.get("k") in ("Var", "Upvar") and fv.get("id") in cparams:
+            r = _inline_closure_call(out, cparams[fv["id"]], F, depth)
+            if r is not None:
+                return r
+    return out
+
+
 def _normalise(n, F, depth, tail=False, under_try=False):
     if isinstance(n, list):
         return [_normalise(x, F, depth) for x in n]
@@ -912,6 +993,25 @@ def _normalise(n, F, depth, tail=False, under_try=False):
         else:
             out[key] = v
     k = out.get("k")
+    # (0) a local constant with a closed initialiser is its value (`const WIDTH: usize = 64`, `Side::TRUE`)
+    if k == "Const" and out.get("path") in getattr(F, "consts", {}):
+        v = peel(F.consts[out["path"]])
+        while v.get("k") == "Block" and not v["stmts"] and v.get("expr") is not None:
+            v = peel(v["expr"])
+        v = dict(v)
+        v["const"] = out["path"]
+        v["sp"] = out.get("sp")
+        return v
+    # (0b) `x.into()` / `T::from(x)` through a conversion written in this crate is a call of that `from`
+    if k == "Call" and not out.get("local") and (out.get("fn") or "").endswith(("convert::Into::into", "convert::From::from")) and len(out.get("gen") or []) == 2 and len(out["args"]) == 1:
+        g = out["gen"]
+        src_t, dst_t = (g[0], g[1]) if out["fn"].endswith("into") else (g[1], g[0])
+        want = "<impl std::convert::From<%s> for %s>::from" % (src_t, dst_t)
+        cands = [nm for nm in F.fns if nm.endswith(want)]
+        if len(cands) == 1:
+            out["fn"] = cands[0]
+            out["local"] = True
+            out["gen"] = []
     # (1) helper inlining
     if k == "Call" and out.get("local") and depth < 3:
         callee = F.fns.get(out.get("fn"))
@@ -920,10 +1020,16 @@ def _normalise(n, F, depth, tail=False, under_try=False):
             off = 1000000 * _inline_counter[0]
             stmts = []
             subst = {}
+            cparams = {}
+            fparams = {}
             for p, a in zip(callee.thir["params"], out["args"]):
                 core_a = peel(a)
+                if core_a.get("k") == "Closure" and p["pat"].get("k") == "Bind":
+                    cparams[p["pat"]["id"] + off] = core_a["def"]
                 while core_a.get("k") == "Call" and (core_a.get("fn") or "").endswith(("Deref::deref", "::as_slice", "::as_str", "AsRef::as_ref")) and len(core_a["args"]) == 1:
                     core_a = peel(core_a["args"][0])  # a view of a variable (`&*v`, `v.as_slice()`) is as good as the variable
+                if core_a.get("k") == "Zst" and core_a.get("fn") and p["pat"].get("k") == "Bind":
+                    fparams[p["pat"]["id"] + off] = core_a["fn"]  # a function item handed over as a `fn(..)` value
                 if core_a.get("k") in ("Var", "Upvar", "Lit", "Const") or (core_a.get("k") == "Field" and peel(core_a["arg"]).get("k") in ("Var", "Upvar")):
                     subst[p["pat"]["id"] + off] = a  # a plain variable / literal argument simply takes the parameter's place
                 else:
@@ -933,6 +1039,14 @@ def _normalise(n, F, depth, tail=False, under_try=False):
                 inner = _subst(_reid(_normalise(callee.helper_body, F, depth + 1, tail), off), subst)
             finally:
                 _CLOSURES.pop()
+            if fparams:
+                inner = _apply_fn_params(inner, fparams, F)
+                used = {x.get("id") for x in walk(inner) if x.get("k") in ("Var", "Upvar")}
+                stmts = [st for st in stmts if not (strip_ref(st["pat"]).get("id") in fparams and strip_ref(st["pat"]).get("id") not in used)]
+            if cparams:
+                inner = _apply_closure_params(inner, cparams, F, depth)
+                used = {x.get("id") for x in walk(inner) if x.get("k") in ("Var", "Upvar")}
+                stmts = [st for st in stmts if not (strip_ref(st["pat"]).get("id") in cparams and strip_ref(st["pat"]).get("id") not in used)]
             if not stmts:
                 inner = dict(inner)
                 inner["inlined"] = callee.name
@@ -941,45 +1055,10 @@ def _normalise(n, F, depth, tail=False, under_try=False):
     # (1b) a call of a local closure (`let f = |a| body; .. f(x)`) is the closure body with its parameters bound
     if k == "Call" and (out.get("fn") or "").endswith(("Fn::call", "FnMut::call_mut", "FnOnce::call_once")) and len(out["args"]) == 2 and depth < 3:
         fv = peel(out["args"][0])
-        tup = peel(out["args"][1])
         cdef = _CLOSURES[-1].get(fv.get("id")) if _CLOSURES and fv.get("k") in ("Var", "Upvar") else None
-        clo = F.fns.get(cdef) if cdef else None
-        if clo is not None and clo.thir is not None and tup.get("k") == "Tuple":
-            ps = [p for p in clo.thir["params"] if p.get("pat") is not None]
-            cbody = _unreturn(clo.raw_body)
-            if len(ps) == len(tup["fields"]) and not any(x.get("k") in ("Return", "Try") for x in walk(cbody)):
-                # every inlined copy gets fresh identities for the closure's own bindings (captured variables keep theirs)
-                _inline_counter[0] += 1
-                coff = 1000000 * _inline_counter[0]
-                own = set()
-                for p_ in ps:
-                    own |= {b[1] for b in pat_binds(p_["pat"])}
-                for x in walk(cbody):
-                    if x.get("k") == "Block":
-                        for st in x["stmts"]:
-                            if st["k"] == "Let":
-                                own |= {b[1] for b in pat_binds(st["pat"])}
-                    for key in ("arms",):
-                        for a_ in x.get(key) or []:
-                            own |= {b[1] for b in pat_binds(a_["pat"])}
-                    if x.get("k") in ("For", "LetCond") and x.get("pat") is not None:
-                        own |= {b[1] for b in pat_binds(x["pat"])}
-                cbody = _reid_only(cbody, coff, own)
-                ps = [dict(p_, pat=_reid_only(p_["pat"], coff, own)) for p_ in ps]
-                stmts = []
-                subst = {}
-                for p_, a in zip(ps, tup["fields"]):
-                    pb = strip_ref(p_["pat"])
-                    if pb.get("k") == "Bind" and not pb.get("sub") and peel(a).get("k") in ("Var", "Upvar", "Lit", "Const") and p_["pat"].get("k") == "Bind":
-                        subst[pb["id"]] = a
-                    else:
-                        stmts.append({"k": "Let", "sp": out["sp"], "pat": p_["pat"], "init": a, "else": None})
-                inner = _subst(_normalise(cbody, F, depth + 1), subst)
-                if not stmts:
-                    inner = dict(inner)
-                    inner["inlined"] = cdef
-                    return inner
-                return {"k": "Block", "ty": out.get("ty"), "sp": out["sp"], "unsafe": False, "stmts": stmts, "expr": inner, "inlined": cdef}
+        r = _inline_closure_call(out, cdef, F, depth)
+        if r is not None:
+            return r
     # (2) `iter.map(closure).collect()` as an explicit loop that pushes in order
     if k == "Call" and (out.get("fn") or "").endswith("Iterator::collect") and out["args"]:
         m = peel(out["args"][0])
@@ -1120,6 +1199,29 @@ def _normalise(n, F, depth, tail=False, under_try=False):
                                "init": {"k": "Lit", "ty": "usize", "sp": out["sp"], "v": "i:0"}, "else": None},
                               {"k": "Expr", "e": loop}],
                     "expr": cnt, "adaptor": "filter-count"}
+    # (2e) `iter.fold(init, |acc, x| body)` is `let mut acc = init; for x in iter { acc = body }; acc` (and `acc = acc + 1` is `acc += 1`)
+    if k == "Call" and (out.get("fn") or "").endswith("Iterator::fold") and len(out["args"]) == 3 and peel(out["args"][2]).get("k") == "Closure":
+        clo = F.fns.get(peel(out["args"][2])["def"])
+        ps = [p for p in clo.thir["params"] if p.get("pat") is not None] if clo is not None and clo.thir is not None else []
+        cbody = _unreturn(clo.raw_body) if ps else None
+        if len(ps) == 2 and ps[0]["pat"].get("k") == "Bind" and not ps[0]["pat"].get("sub") and not any(x.get("k") in ("Return", "Try") for x in walk(cbody)):
+            sp = out["sp"]
+            aid = ps[0]["pat"]["id"]
+            acc = {"k": "Var", "ty": out.get("ty"), "sp": sp, "name": ps[0]["pat"].get("name", "acc"), "id": aid}
+            body = _normalise(cbody, F, depth + 1)
+            core = unblock(body)
+            while core.get("k") == "Block" and not core["stmts"] and core.get("expr") is not None:
+                core = unblock(core["expr"])
+            if core.get("k") == "Binary" and core.get("op") == "Add" and peel(core["lhs"]).get("k") == "Var" and peel(core["lhs"]).get("id") == aid and lit(core["rhs"]) is not None:
+                step = {"k": "AssignOp", "ty": "()", "sp": core.get("sp", sp), "op": "AddAssign", "lhs": acc, "rhs": core["rhs"], "folded": True}
+            else:
+                step = {"k": "Assign", "ty": "()", "sp": sp, "lhs": acc, "rhs": body}
+            loop = {"k": "For", "ty": "()", "sp": sp, "pat": ps[1]["pat"], "iter": out["args"][0], "adaptor": "fold",
+                    "body": {"k": "Block", "ty": "()", "sp": sp, "unsafe": False, "stmts": [{"k": "Expr", "e": step}], "expr": None}}
+            return {"k": "Block", "ty": out.get("ty"), "sp": sp, "unsafe": False, "adaptor": "fold",
+                    "stmts": [{"k": "Let", "sp": sp, "pat": dict(ps[0]["pat"], mode="BindingMode(No, Mut)"), "init": out["args"][1], "else": None},
+                              {"k": "Expr", "e": loop}],
+                    "expr": acc}
     # (3) `v.extend(iter.map(closure))` on a Vec is the loop `for p in iter { v.push(closure body) }`
     if k == "Call" and (out.get("fn") or "").endswith("Extend::extend") and len(out["args"]) == 2 and "std::vec::Vec<" in str(out["args"][0].get("ty")):
         m = peel(out["args"][1])
@@ -1130,7 +1232,46 @@ def _normalise(n, F, depth, tail=False, under_try=False):
                 body = _normalise(clo.raw_body, F, depth + 1)
                 push = {"k": "Call", "ty": "()", "sp": out["sp"], "fn": "std::vec::Vec::<T, A>::push", "local": False, "gen": [], "hir_call": False, "args": [out["args"][0], body]}
                 return {"k": "For", "ty": "()", "sp": out["sp"], "pat": ps[0]["pat"], "iter": m["args"][0], "body": push, "extended": True}
+    # (4) `vec![e; n]` is `let mut v = Vec::with_capacity(n); for _ in 0..n { v.push(e) }; v`
+    if k == "Call" and (out.get("fn") or "").endswith("vec::from_elem") and len(out["args"]) == 2 and peel(out["args"][0]).get("k") in ("Adt", "Lit", "Const", "Var"):
+        sp = out["sp"]
+        _inline_counter[0] += 1
+        vid = 1000000 * _inline_counter[0] + 999995
+        nid = vid - 1
+        vv = {"k": "Var", "ty": out.get("ty"), "sp": sp, "name": "filled", "id": vid}
+        narg = out["args"][1]
+        stmts = []
+        if peel(narg).get("k") in ("Var", "Upvar", "Lit", "Const"):
+            nv = narg
+        else:
+            nv = {"k": "Var", "ty": "usize", "sp": sp, "name": "n", "id": nid}
+            stmts.append({"k": "Let", "sp": sp, "pat": {"k": "Bind", "ty": "usize", "name": "n", "id": nid, "mode": "BindingMode(No, Not)", "sub": None}, "init": narg, "else": None})
+        rng = {"k": "Adt", "ty": "std::ops::Range<usize>", "sp": sp, "adt": "std::ops::Range", "variant": "Range",
+               "fields": [{"name": "start", "e": {"k": "Lit", "ty": "usize", "sp": sp, "neg": False, "v": "i:0"}}, {"name": "end", "e": nv}]}
+        push = {"k": "Call", "ty": "()", "sp": sp, "fn": "std::vec::Vec::<T, A>::push", "local": False, "gen": [], "hir_call": False, "args": [vv, out["args"][0]]}
+        loop = {"k": "For", "ty": "()", "sp": sp, "pat": {"k": "Wild", "ty": "usize"}, "iter": rng,
+                "body": {"k": "Block", "ty": "()", "sp": sp, "unsafe": False, "stmts": [{"k": "Expr", "e": push}], "expr": None}, "filled": True}
+        stmts.append({"k": "Let", "sp": sp, "pat": {"k": "Bind", "ty": out.get("ty"), "name": "filled", "id": vid, "mode": "BindingMode(No, Mut)", "sub": None},
+                      "init": {"k": "Call", "ty": out.get("ty"), "sp": sp, "fn": "std::vec::Vec::<T>::with_capacity", "local": False, "gen": [], "hir_call": True, "args": [nv]}, "else": None})
+        stmts.append({"k": "Expr", "e": loop})
+        return {"k": "Block", "ty": out.get("ty"), "sp": sp, "unsafe": False, "stmts": stmts, "expr": vv, "filled": True}
     return out
+
+
+def _closed_value(n):
+    n = peel(n)
+    while n.get("k") == "Block" and not n["stmts"] and n.get("expr") is not None:
+        n = peel(n["expr"])
+    k = n.get("k")
+    if k == "Lit":
+        return True
+    if k == "Unary" and n.get("op") == "Neg":
+        return _closed_value(n["arg"])
+    if k == "Tuple":
+        return all(_closed_value(f) for f in n["fields"])
+    if k == "Adt":
+        return all(_closed_value(f["e"]) for f in n["fields"]) and not n.get("base")
+    return False
 
 
 class Facts:
@@ -1143,6 +1284,11 @@ class Facts:
         self.items = d["items"]
         tm = {f["fn"]: f for f in d["thir"]}
         mm = {f["fn"]: f for f in d["mir"]}
+        # local constants whose initialiser is a closed value (literals, struct/tuple literals of such): name -> initialiser
+        self.consts = {}
+        for c in d.get("consts") or []:
+            if _closed_value(c["init"]):
+                self.consts[c["path"]] = c["init"]
         self.fns = {}
         for name in list(tm) + [n for n in mm if n not in tm]:
             self.fns[name] = Fn(tm.get(name), mm.get(name), self)
